@@ -12,8 +12,10 @@ def gen_case(rng, cid, mode):
     sc = scripts.gen_script(rng, maxlen=rng.randint(6, 40), maxdepth=3, p_call=0.25, reads=False, fns=rng.choice(["f", "fg"]))
     fns = P.script_fns(sc)
     hs = []
+    conds = rng.random() < 0.5       # a tag restriction and a value condition on the same capture: both apply
     for _ in range(4):
-        s = S.gen_sel(rng, fns=fns, names=("a", "b", "p", "c"), maxdepth=rng.choice([1, 2]), generic=0.5, cats=0.6)
+        s = S.gen_sel(rng, fns=fns, names=("a", "b", "p", "c"), maxdepth=rng.choice([1, 2]), generic=0.5, cats=0.6, conds=conds,
+                      values=range(0, 25))
         hs.append(W.norm_handler({"kind": "imm", "sel": s, "raw": True}))
     return {"id": cid, "script": sc, "arg": rng.randint(0, 30), "handlers": hs}
 
